@@ -13,8 +13,10 @@ FM10 (corpus/C04/fix_candidates/FM10.diff, cst_parser.rs is_tuple_expr):
   * KNOWN_FINDINGS.txt                finding: property=C14 id=FM10 ...  ->  fixed: property=C14 <commit> FM10: ...
   The edits are applied as exact text replacements on the ACTIVE files (each must match exactly once); the complete files this
   produces from the files of the day they were prepared are kept next to this script (coq/, translators/, checks/) for reference.
-F60 / F49 / F48 (typing.rs, bytecodegen.rs): the KNOWN_FINDINGS line becomes `fixed: property=C04 <commit> Fxx: ...` and the
-  class predicate is cut out of checks/C04.py, so that a recurrence is a VIOLATION.
+F60 / F49 (typing.rs): the KNOWN_FINDINGS line becomes `fixed: property=C04 <commit> Fxx: ...` and the class predicate is cut out
+  of checks/C04.py, so that a recurrence is a VIOLATION.
+F48 (bytecodegen.rs) is a PARTIAL repair (if-arms and globals; a unit value used as an operand / element / result still panics):
+  the finding stays, its text is reworded to the remaining cases, class and predicate are unchanged.
 Nothing is written unless every requested edit applies.
 """
 import os, re, sys
@@ -23,10 +25,15 @@ HERE = os.path.dirname(os.path.abspath(__file__))
 VERIF = os.path.normpath(os.path.join(HERE, "..", "..", ".."))
 
 C04_SUMMARY = {
-    "F60": "check_type_alias_cycles reported a cyclic type alias but left it registered; resolve_type_alias / convert_unknown_to_intermediate followed it forever as soon as it was used: stack-overflow abort of the type check (`type alias T = T` newline `let x : T = 1`)",
+    "F60": "check_type_alias_cycles reported a cyclic type alias but left it registered; resolve_type_alias / convert_unknown_to_intermediate followed it forever as soon as it was used: stack-overflow abort of the type check (`type alias T = T` newline `let x : T = 1`); inside a module the cycle was not even detected (`mod m { type alias P = P  pub fn f(x:P){x} }`)",
     "F49": "typing's Assign arm accepted builtins, external functions and type names (bound as Persistent) as assignment targets; mirgen hit unreachable!(\"Invalid assignment target\") (`sin = sin`)",
-    "F48": "bytecodegen called find() on the unit value Value::None for the Phi of an if and for SetGlobal: `value none not found` on type-correct programs (`fn dsp(){ let x = 1.0` newline `if (1) { x = 2.0 }` newline `x }`, `let f = { }`), VM backend only",
 }
+# F48 is only PARTLY repaired by fix_candidates/11_F48: the finding stays, with this text (class and predicate unchanged)
+F48_REMAINING = ("unit values are Value::None in MIR and have no register in the VM bytecode generator: wherever one is USED AS A VALUE "
+                 "bytecodegen panics `value none not found` (emit_bytecode only; type-correct programs): `fn f(){ let g = { }` newline `g }` ; "
+                 "`fn dsp(){ { } - 1.0 }` ; `fn dsp(){ [ { } ] }` ; `{ f = { } , .. }`. The two commonest ways in -- the Phi of an `if` with a "
+                 "unit-valued arm (`if (c) { x = 2.0 }` without else, `if (now) {}`) and SetGlobal of a unit value (`let f = { }`) -- are "
+                 "repaired by %s; a complete repair needs a representation of unit values in the code generator.")
 FM10_FIXED = ("FM10: is_tuple_expr (cst_parser.rs) looked for a comma before the matching `)` counting only parentheses, so a comma inside "
               "`[..]` / `{..}` / lambda bars made `([a,])`, `([a, b])`, `({a = 1,})`, `(|x, y| x + y)` one-element TUPLES (and mimium-fmt, which "
               "drops trailing commas, printed `([a,])` as `([a])`, a different AST); the lookahead now tracks every bracket kind and the bars of a lambda")
@@ -124,7 +131,7 @@ def cut_class(ck, fid, cls):
 
 def main():
     args = dict(a.split("=", 1) for a in sys.argv[1:] if "=" in a)
-    if not args or any(k not in list(C04_SUMMARY) + ["FM10"] for k in args):
+    if not args or any(k not in list(C04_SUMMARY) + ["FM10", "F48"] for k in args):
         sys.exit(__doc__)
     files = {}
 
@@ -153,6 +160,13 @@ def main():
                 c14 = replace_once(c14, old, new, "checks/C14.py")
             files["checks/C14.py"] = c14
             print("FM10: Parser/Model.v, translators/token_kinds.py, checks/C14.py updated; KNOWN_FINDINGS C14/FM10 -> fixed")
+        elif fid == "F48":
+            idx = [i for i, l in enumerate(kf) if re.match(r"finding:\s+property=C04\s+id=F48\s", l)]
+            if len(idx) != 1:
+                sys.exit("F48: expected exactly one `finding: property=C04 id=F48` line")
+            head = re.match(r"(finding:\s+property=C04\s+id=F48\s+class=\S+)\s", kf[idx[0]]).group(1)
+            kf[idx[0]] = head + " " + F48_REMAINING % commit
+            print(f"F48: partly repaired by {commit}: the finding line is reworded, class and predicate stay")
         else:
             cls = fix_line("C04", fid, f"fixed: property=C04 {commit} {fid}: {C04_SUMMARY[fid]}")
             files["checks/C04.py"] = cut_class(get("checks/C04.py"), fid, cls)
